@@ -255,8 +255,8 @@ del _STRING_REVERSE_ESCAPES[b'"']
 # without emitting a token. The patterns are matched in order.
 _TOKEN_MATCHERS = []
 _TOKEN_MATCHERS.extend([
-    (re.compile(br'--.*'), TokComment),
-    (re.compile(br'//.*'), TokComment),
+    (re.compile(br'--[^\r\n]*'), TokComment),
+    (re.compile(br'//[^\r\n]*'), TokComment),
     (re.compile(br'[ \t]+'), TokSpace),
     (re.compile(br'\r\n'), TokNewline),
     (re.compile(br'\n'), TokNewline),
